@@ -271,6 +271,62 @@ theorem get?_set (m : AMap Id V) (k : Id) (v : V) (k' : Id) :
   · subst h; simp [AMap.get?_set_self]
   · simp [h, AMap.get?_set_other _ _ _ _ h]
 
+theorem keys_set (m : AMap Id V) (k : Id) (v : V) :
+    (AMap.set m k v).map (·.1) = if k ∈ m.map (·.1) then m.map (·.1) else m.map (·.1) ++ [k] := by
+  induction m with
+  | nil => simp [AMap.set]
+  | cons hd t ih =>
+    obtain ⟨k', v'⟩ := hd
+    by_cases e : k' = k
+    · subst e; simp [AMap.set]
+    · simp only [AMap.set, e, if_false, List.map_cons, ih]
+      have e' : ¬ (k = k') := fun h => e h.symm
+      by_cases hm : k ∈ t.map (·.1)
+      · simp [hm, e']
+      · simp [hm, e']
+
+theorem nodup_keys_set (m : AMap Id V) (k : Id) (v : V) (h : (m.map (·.1)).Nodup) :
+    ((AMap.set m k v).map (·.1)).Nodup := by
+  rw [keys_set]
+  split
+  · exact h
+  · rename_i hk
+    rw [List.nodup_append]
+    refine ⟨h, by simp, ?_⟩
+    intro a ha b hb
+    simp at hb; subst hb
+    intro e; subst e; exact hk ha
+
+theorem mem_keys_of_get? (m : AMap Id V) (k : Id) (v : V) (h : AMap.get? m k = some v) : k ∈ m.map (·.1) := by
+  induction m with
+  | nil => simp at h
+  | cons hd t ih =>
+    obtain ⟨k', v'⟩ := hd
+    simp only [AMap.get?] at h
+    split at h
+    · rename_i e; subst e; simp
+    · simp [ih h]
+
+/-- with one entry per key, a function vanishing on every looked-up value has sum zero -/
+theorem sumBy_eq_zero (f : V → Nat) (m : AMap Id V) (hnd : (m.map (·.1)).Nodup)
+    (h : ∀ k v, AMap.get? m k = some v → f v = 0) : AMap.sumBy f m = 0 := by
+  induction m with
+  | nil => rfl
+  | cons hd t ih =>
+    obtain ⟨k, v⟩ := hd
+    simp only [List.map_cons, List.nodup_cons] at hnd
+    simp only [AMap.sumBy, AMap.sumIf, if_true]
+    have h0 : f v = 0 := h k v (by simp [AMap.get?])
+    have ht : AMap.sumBy f t = 0 := by
+      apply ih hnd.2
+      intro k' v' hg
+      apply h k' v'
+      have hne : ¬ (k = k') := by
+        intro e; subst e; exact hnd.1 (mem_keys_of_get? t k v' hg)
+      simp [AMap.get?, hne, hg]
+    simp only [AMap.sumBy] at ht
+    omega
+
 end sums
 
 theorem getS?_set (m : AMap Denom Supply) (k : Denom) (v : Supply) (k' : Denom) :
